@@ -35,9 +35,42 @@ def layout(m):
     return N["left"], N["right"], I["curr"], I["parent"]
 
 
-def segs(m, name):
+def segs(m, name, seed=None):
     fn = m.fn(name)
-    return fn, [(s, p) for s, p in paths.enumerate_segments(fn, m) if p.end != "unreachable"]
+    return fn, [(s, p) for s, p in paths.enumerate_segments(fn, m, seed=seed) if p.end != "unreachable"]
+
+
+def cursor_invariant(fn, ss, CUR):
+    """The walk keeps its position both in a local and in iter->curr.  Returns the name of the loop-carried local if
+    `local == iter->curr` holds at every loop header (established at entry, re-established by every segment that reaches the outer
+    header, and iter->curr is written nowhere else), else a string saying what fails."""
+    cur_ptr = (("arg", 0), CUR, ())
+    cand = None
+    for s, p in ss:
+        if s != fn.entry.name or not p.end.startswith("cut:"):
+            continue
+        for k, v in (getattr(p, "carried", None) or {}).items():
+            if v[0] == "ld" and ptr_parts(v[1]) == cur_ptr and not any(e.kind == "store" and ptr_parts(e.ptr) == cur_ptr for e in p.events):
+                cand = (p.end[4:], k)
+    if cand is None:
+        return "no loop-carried local is initialised from iter->curr"
+    head, phi = cand
+    for s, p in ss:
+        st = [e for e in p.events if e.kind == "store" and ptr_parts(e.ptr) == cur_ptr]
+        if s == fn.entry.name:
+            if st and p.end.startswith("cut:"):
+                return "iter->curr is written before the loop (%s)" % st[0].inst.loc
+            continue
+        if p.end == "cut:" + head:
+            carried = (getattr(p, "carried", None) or {}).get(phi)
+            if st:
+                if strip_casts(st[-1].val) != strip_casts(carried):
+                    return "at %s the local continues at %s but iter->curr holds %s" % (p.ret_inst.loc, fmt(carried)[:40], fmt(st[-1].val)[:40])
+            elif carried != ("sym", phi):
+                return "at %s the local moves on to %s but iter->curr is not updated" % (p.ret_inst.loc, fmt(carried)[:40])
+        elif p.end.startswith("cut:") and st:
+            return "iter->curr is written inside an inner loop (%s)" % st[0].inst.loc
+    return (phi,)
 
 
 def null_fact(p, e):
@@ -95,7 +128,7 @@ def depth_zero_flag(fn, name):
     return True
 
 
-def search_provenance(fn, m, owner, L, R):
+def search_provenance(fn, m, owner, L, R, cursor_field=None):
     """Is the node `owner` (a loop-carried SSA value) produced only by  x->left  of the current node or  owner->right ?"""
     from .. import flow
     if owner[0] != "sym":
@@ -117,14 +150,66 @@ def search_provenance(fn, m, owner, L, R):
             continue                    # prev = prev->right
         if pp.off == L and pp.root.k == "inst" and pp.root.inst is not None and pp.root.inst.op == "phi":
             continue                    # prev = curr->left  (curr is the outer loop's node)
+        if cursor_field is not None and pp.off == L and pp.root.k == "inst" and pp.root.inst is not None and pp.root.inst.op == "load":
+            try:
+                q = flow.resolve_ptr(pp.root.inst.ops[0], m)
+            except AnalysisError:
+                q = None
+            if q is not None and not q.var and q.root.k == "arg" and q.root.name == fn.args[0].name and q.off == cursor_field:
+                continue                # prev = iter->curr->left, with iter->curr == curr established
         return "it is loaded from offset %d of %r" % (pp.off, pp.root)
     return True
+
+
+def _search_starts_at_iterator(fn, m, L, CUR):
+    from .. import flow
+    for i in fn.insts():
+        if i.op != "load":
+            continue
+        try:
+            pp = flow.resolve_ptr(i.ops[0], m)
+        except AnalysisError:
+            continue
+        if pp.var or pp.off != L or pp.root.k != "inst" or pp.root.inst is None or pp.root.inst.op != "load":
+            continue
+        try:
+            q = flow.resolve_ptr(pp.root.inst.ops[0], m)
+        except AnalysisError:
+            continue
+        if not q.var and q.root.k == "arg" and q.root.name == fn.args[0].name and q.off == CUR and pp.root.inst.block.name != fn.entry.name:
+            return True
+    return False
 
 
 def check_morris(chk, m, name, order, L, R, CUR):
     fn, ss = segs(m, name)
     chk.note_fn(fn)
     n_thread = n_unthread = n_dec = 0
+    cursor_phi = None
+    # the rules below follow the walk's position in a local (loaded from iter->curr once, at entry); a walk that re-reads its position
+    # from the iterator inside the loop relies on an invariant (local == iter->curr) that is not established here
+    for s, p in ss:
+        if s == fn.entry.name:
+            continue
+        rd = [e for e in p.events if e.kind == "load" and ptr_parts(e.ptr) == (("arg", 0), CUR, ())]
+        if rd:
+            inv = cursor_invariant(fn, ss, CUR)
+            if isinstance(inv, tuple):
+                # the invariant is inductive: re-enumerate with it as a memory fact at every loop header
+                cursor_phi = inv[0]
+                fn, ss = segs(m, name, seed={paths.mkptr(("arg", 0), CUR): (("sym", cursor_phi), m.ptr_size)})
+                chk.ob("M1.cursor", name, True, "the walk's position is kept both in a local and in iter->curr: the two agree at every loop "
+                       "header (established at entry, re-established on every arrival at the outer header, iter->curr written nowhere else)",
+                       rd[0].inst.loc, name)
+                break
+            if inv.startswith("at ") and _search_starts_at_iterator(fn, m, L, CUR):
+                chk.ob("M1.cursor", name, False, "the predecessor search starts at iter->curr->left, but iter->curr is not the walk's "
+                       "position on every iteration: %s; the search then finds the predecessor of a node the walk has already left, and "
+                       "the thread is created or removed in the wrong place" % inv, rd[0].inst.loc, name)
+                return
+            chk.unknown("M1.cursor", name, "the walk re-reads its position from iter->curr inside the loop (%s): the threading rules follow "
+                        "the position in a local variable, and the two are not shown to agree: %s" % (rd[0].inst.loc, inv), rd[0].inst.loc)
+            return
     for s, p in ss:
         sid = "%s %s..%s [%s]" % (name, s.lstrip("%"), p.end, "->".join(b.lstrip("%") for b in p.blocks[-3:]))
         stores = [e for e in p.events if e.kind == "store" and ptr_parts(e.ptr)[1] == R and ptr_parts(e.ptr)[0][0] in ("sym", "ld", "call")
@@ -143,7 +228,7 @@ def check_morris(chk, m, name, order, L, R, CUR):
             if e.val == ("null",):
                 n_unthread += 1
                 owner = ptr_parts(e.ptr)[0]
-                prov = search_provenance(fn, m, owner, L, R)
+                prov = search_provenance(fn, m, owner, L, R, CUR if cursor_phi else None)
                 if prov is not True and owner[0] == "call":
                     chk.unknown("M1.unthread-provenance", sid, "the node whose link is reset is the result of %s(), which is not "
                                 "summarised: whether it is the in-order predecessor is not decided" % owner[1], e.inst.loc)
